@@ -12,8 +12,11 @@ normals) and the plane-normal / ``compute_normal`` paths of ``_compute_geometry_
 
 Grid family: the C19 family (``props.C19._cases`` in natural position: Cart/Tensor/structured and Delaunay simplex
 grids, 1..3 cells per direction, clockwise-cell and reversed-face-node variants -> convex fallback branch, seeded
-convexity-preserving perturbations, affine images, perturbed hexahedra).  Motions: pure translations (incl. large
-ones), the 24 axis-aligned proper rotations, seeded random rotations, near-identity rotations (1e-3 .. 1e-9 rad),
+convexity-preserving perturbations, affine images, perturbed hexahedra, and the later C19 additions: cell sizes
+1e-5 .. 1e4, 2-D unions of face-disconnected parts with mirrored (oppositely wound) parts incl. exactly mirrored halves,
+TriangleGrid patches with a mirror image, 2-D Cart/Tensor grids with a non-convex 'dart' cell).  Motions: pure
+translations (incl. far ones, |t| = 1e2 .. 4e4 with unit-spacing grids), the 24 axis-aligned proper rotations, seeded
+random rotations (one of them combined with a far translation), near-identity rotations (1e-3 .. 1e-9 rad),
 near-quarter-turns, each combined with a translation.  The rotation matrices are built here (Rodrigues / signed
 permutations), not with porepy.
 
@@ -31,6 +34,12 @@ Detection power (scratch copy of /repo/src, POREPY_SRC, one mutant at a time):
       -> exit 1, cell centres / normals obligations (2-D embedded grids)
   * map_geometry.compute_tangent: ``argmax(sum(tangent**2, axis=0))`` -> ``argmax(abs(tangent[0]))`` NOT caught: equivalent for this
     property (any non-zero node offset is a valid tangent and the sign is repaired by _compute_geometry_1d)
+Seeded changes detected through the later additions:
+  * map_geometry.compute_normal: collinearity tolerance scaled with |pts| instead of |pts - centre|
+      -> exit 1, "returns on a rigidly moved admissible grid" (plane-fitting grids -- reversed face nodes, mirrored halves --
+         under the far translations)
+  * grid.py _compute_geometry_2d orientation check 2/3: ``len_normal < 1e-5 mean(area)^2`` -> ``len_normal == 0``
+      -> exit 1, "face normals rotate with the motion" (exactly mirrored halves rotated into a non-coordinate plane)
 """
 from __future__ import annotations
 
@@ -46,8 +55,10 @@ META = {
     "technique": "run-time contract sweep (bounded stand-in for deduction): relational postcondition geometry(R X + t) = R geometry(X) + t "
                  "on the real Grid.compute_geometry over an enumerated family of grids x rigid motions",
     "text": "Bounded assurance only: volumes/areas invariant and centres/normals co-rotating for every enumerated grid (C19 family) and "
-            "every enumerated motion (translations, all 24 axis-aligned rotations, seeded random, near-identity and near-quarter-turn "
-            "rotations), including 1-D and 2-D grids embedded in 3-D. Improper motions (reflections) are outside the statement.",
+            "every enumerated motion (translations up to 1e3-4e4 grid diameters from the origin, all 24 axis-aligned rotations, seeded "
+            "random, near-identity and near-quarter-turn rotations), including 1-D and 2-D grids embedded in 3-D, grids with cells of "
+            "size 1e-5..1e4, 2-D grids with mirrored face-disconnected parts and 2-D grids with one non-convex cell. Improper motions "
+            "(reflections) are outside the statement.",
     "note": "the reference is the same real function on the grid in natural position (the property is relational); rotation matrices are "
             "generated independently of porepy and checked orthonormal to 1e-14; tolerance 1e-10*(1+M/L)",
 }
@@ -90,6 +101,13 @@ def _motions(rng, quick, rodrigues):
     for a in ((1e-7,) if quick else (1e-4, 1e-7, -1e-7)):
         ms.append((f"quarter-y{a:g}", "near-quarter-turn", rodrigues([0, 1, 0], math.pi / 2 - a), np.zeros(3)))
         ms.append((f"quarter-x{a:g}", "near-quarter-turn", rodrigues([1, 0, 0], math.pi / 2 + a), np.array([1.0, 1.0, 1.0])))
+    # far from the origin (e.g. georeferenced coordinates): |t| = 1e3 .. 1e4 times the size of the unit-spacing grids
+    ms.append(("t(2e3,-3e3,1.5e3)", "translation", I, np.array([2000.0, -3000.0, 1500.0])))
+    R = rodrigues([rng.gauss(0, 1) for _ in range(3)], rng.uniform(0.3, 2.8))
+    ms.append(("far-rand(-4e3,1e3,2.5e3)", "far random", R, np.array([-4000.0, 1000.0, 2500.0])))
+    if not quick:
+        ms.append(("t(1e4,2e4,-3e4)", "translation", I, np.array([1.0e4, 2.0e4, -3.0e4])))
+        ms.append(("far-axis(0,-2e4,5e3)", "far axis-aligned", _axis_rotations()[9], np.array([0.0, -2.0e4, 5.0e3])))
     return ms
 
 
@@ -129,7 +147,12 @@ def run_case(pp, C19, case, R, t):
     nat = np.array(case["nodes"], dtype=float)
     CF, fnodes = C19.topo(g)
     h = float(np.max(np.ptp(nat, axis=1))) or 1.0
-    if dim < 3:
+    if dim == 2 and case["op"].startswith("dart"):
+        # non-convex cells of consistently oriented grids: simple polygons (as in C19)
+        loops = C19.cell_loops_2d(CF, fnodes, np.array(g.nodes, dtype=float))
+        if loops is None or not C19.polygons_valid(nat, loops, 1e-3 * h, 1e-6 * h * h):
+            return "skip", None
+    elif dim < 3:
         ref = nat if case["op"].startswith("affine") else np.array(g.nodes, dtype=float)
         if not C19.cells_valid(dim, nat, CF, fnodes, 1e-6 * h * (h if dim == 2 else 1), ref):
             return "skip", None
@@ -164,20 +187,22 @@ def run(rep):
 
     rep.under_contract("Grid.compute_geometry", "Grid._compute_geometry_1d", "Grid._compute_geometry_2d", "Grid._compute_geometry_3d",
                        "map_geometry.compute_tangent", "map_geometry.compute_normal")
-    rep.assume("requires: admissible grid (non-degenerate convex cells, checked independently as in C19) and a proper rotation "
+    rep.assume("requires: admissible grid (non-degenerate convex cells, or simple polygons for the 2-D dart operation, checked "
+               "independently as in C19) and a proper rotation "
                "(orthonormal to 1e-14, det=+1) built without porepy",
                "the reference geometry is the real function's output in natural position (relational property); its absolute "
                "correctness is C19's obligation")
     quick = rep.tier == "quick"
     motions = _motions(rep.rng, quick, C19.rodrigues)
-    ops_ok = ("plain", "perturb0", "affine0", "prism0") if quick else ("plain", "perturb0", "perturb1", "perturb2", "affine0", "affine1", "prism0", "prism1")
+    ops_ok = (("plain", "perturb0", "affine0", "prism0", "dart0") if quick
+              else ("plain", "perturb0", "perturb1", "perturb2", "affine0", "affine1", "prism0", "prism1", "dart0", "dart1", "dart2", "dart3"))
     with rep.sweep(
         "rigid-motion equivariance",
-        rule="C19 grid family in natural position (plain | seeded perturbation | affine image) x motions {2 translations, axis-aligned "
-             "proper rotations (6 quick / all 24 thorough), seeded random rotations (3/10), near-identity tilts 1e-3..1e-9 rad about "
-             "x,y,z,(1,1,1), near-quarter-turns about x and y}; non-trivial = rotation differs from the identity; distinct by "
-             "(family, args, operation, motion)",
-        bound="<= 3 cells per direction; 15 (quick) / 54 (thorough) motions per grid",
+        rule="C19 grid family in natural position (plain | seeded perturbation | affine image | dart) x motions {2 near + 1 (2 thorough) "
+             "far translations, axis-aligned proper rotations (6 quick / all 24 thorough), seeded random rotations (3/10), one random "
+             "rotation with a far translation, near-identity tilts 1e-3..1e-9 rad about x,y,z,(1,1,1), near-quarter-turns about x and "
+             "y}; non-trivial = rotation differs from the identity; distinct by (family, args, operation, motion)",
+        bound="<= 3 cells per direction (20 cells for the small-cell 1-D grid); 17 (quick) / 58 (thorough) motions per grid",
         exhaustive=False,
     ) as sw:
         seen = set()
